@@ -378,3 +378,20 @@ pub fn replay(_ctx: &RunCtx, case: &Value) -> Result<Option<Fail>, String> {
     let all_hosts: Vec<usize> = (0..HOSTS.len()).collect();
     Ok(check_string(s, &all_hosts).err().map(|(_, _, f)| f))
 }
+
+/// fuzz entry: the input is the string itself when it is valid UTF-8 of at most 12 characters, otherwise it is
+/// decoded over the check's alphabet
+pub fn fuzz_one(data: &[u8]) -> Option<(Value, Fail)> {
+    let s = match std::str::from_utf8(data) {
+        Ok(s) if s.chars().count() <= 12 => s.to_string(),
+        _ => random_string(data),
+    };
+    let all_hosts: Vec<usize> = (0..HOSTS.len()).collect();
+    match check_string(&s, &all_hosts) {
+        Ok(_) => None,
+        Err((_, _, f)) => {
+            let v = violation(&s, &all_hosts, f);
+            Some((v.case, v.fail))
+        }
+    }
+}
